@@ -15,6 +15,7 @@ from dsim.stackmodel import StackModel
 
 ID = "C17"
 LEVEL = "fault_enumeration"
+GC_CONTROL = True
 RULE = ("one case = a history of 5-25 API calls (add_assertion, push(n)/pop(n) n in 1..3, solve, get_value, get_model, "
         "reset_assertions, is_sat/is_valid/is_unsat, factory shortcuts) on one or two real SmtLibSolver objects over "
         "simulated pipes to the strict reference solver, with tape-chosen read chunking, latencies, model choice and "
